@@ -379,6 +379,36 @@ def run(chk, replay=None):
                                          num=int(round(num)) if abs(num - round(num)) < 1e-9 and 0 <= float(res.quantile) <= 1 else -1),
                               {'label': 'quantile', 'module': modname}, False)
 
+    # 5a. the quantile rule where it matters: simulated statistics that TIE with the observed one.  Forecasts with equal
+    # rates in every bin (a uniform reference model) and one or two observed events: most simulated catalogs score
+    # exactly like the observed one, and "not exceeding" counts every one of them
+    def quantile_record(res, label, modname):
+        td = [float(x) for x in res.test_distribution]
+        allv = sorted(set(td + [float(res.observed_statistic)]))
+        rank = {v: i for i, v in enumerate(allv)}
+        num = float(res.quantile) * len(td)
+        add_trace(base_trace(kind='quantile', sims=[rank[x] for x in td], obs=rank[float(res.observed_statistic)],
+                             num=int(round(num)) if abs(num - round(num)) < 1e-9 and 0 <= float(res.quantile) <= 1 else -1),
+                  {'label': label, 'module': modname, 'ties': sum(1 for x in td if x == float(res.observed_statistic))}, False)
+    for (nc_, nb_, rate_, wobs_) in ((3, 2, 0.5, [[1, 0], [0, 0], [0, 0]]), (4, 1, 0.25, [[1], [0], [1], [0]]), (2, 2, 1.0, [[0, 1], [1, 0]])):
+        fcu = B.forecast(numpy.full((nc_, nb_), rate_))
+        catu = B.catalog(wobs_, nc_, nb_)
+        for label, fn in (('poisson CL', lambda s_: pe.conditional_likelihood_test(fcu, catu, num_simulations=25, seed=s_)),
+                          ('poisson L', lambda s_: pe.likelihood_test(fcu, catu, num_simulations=25, seed=s_)),
+                          ('poisson S', lambda s_: pe.spatial_test(fcu, catu, num_simulations=25, seed=s_)),
+                          ('poisson M', lambda s_: pe.magnitude_test(fcu, catu, num_simulations=25, seed=s_)),
+                          ('binary CL', lambda s_: be.binary_conditional_likelihood_test(fcu, catu, num_simulations=25, seed=s_)),
+                          ('binary S', lambda s_: be.binary_spatial_test(fcu, catu, num_simulations=25, seed=s_)),
+                          ('brier', lambda s_: br.brier_score_test(fcu, catu, num_simulations=25, seed=s_))):
+            res = guarded_timeout(20, fn, 11)
+            chk.count(25)
+            if isinstance(res, Raised):
+                chk.violation('quantile:raised:%s' % label, {'shape': [nc_, nb_], 'err': repr(res)})
+                continue
+            quantile_record(res, 'quantile-with-ties', label)
+            if any(float(x) == float(res.observed_statistic) for x in res.test_distribution):
+                chk.nontrivial('ties|%s|%d|%d' % (label, nc_, nb_))
+
     # 5b. the rejection loop fed with uniform numbers on / next to every cumulative boundary (dyadic rates: strict)
     for wt in [w_ for w_ in bin_cases + weight_sets if sum(w_) & (sum(w_) - 1) == 0 and sum(1 for x in w_ if x > 0) >= 2]:
       for unit5 in (0.25, 49.0 / 256.0, 3.0):
